@@ -277,6 +277,9 @@ if mode == "info":
         f = os.path.join(spsdk.SPSDK_DATA_FOLDER, "devices", dev, "database.yaml")
         out[dev] = load_configuration(f) if os.path.exists(f) else None
     print("ENVINFO " + json.dumps(out, default=str))
+elif mode == "cfgfile":
+    from spsdk.utils import database as D
+    print("ENVANS " + json.dumps({"content": D.DatabaseManager().db.load_db_cfg_file(sys.argv[2])}, sort_keys=True, default=str))
 else:
     from spsdk.utils import database as D
     devs, feats = sys.argv[2].split(","), sys.argv[3].split(",")
@@ -1232,6 +1235,14 @@ def _run(ck, work, only=None):
     if wanted("environment_histories"):
         run_env_histories(ck, c, sv, only, oin, par)
     mark("env_histories")
+    sr = ck.stream("rewritten_cfg_files", "a configuration file that went through load_db_cfg_file (so it is in the per-data-folder config cache) is REWRITTEN between two REAL "
+                   "fresh starts sharing one cache folder: same byte size / other size, modification time moved by a sub-second amount inside the same second / by whole "
+                   "seconds / backwards; the second start must answer load_db_cfg_file like a SPSDK_CACHE_DISABLED=1 start (the stamp mtime_ns + size of the fingerprint "
+                   "must see every such change); a rewrite that keeps size AND the exact mtime is outside what a stat-based stamp can see and is not generated; "
+                   "non-trivial = each (variant, value pair)")
+    if wanted("rewritten_cfg_files"):
+        run_rewritten_cfg(ck, c, sr, only, oin, par)
+    mark("rewritten_cfg")
     # ---------------------------------------------------------------- controlled schedules: real trace vs model, crashes injected
     sm = ck.stream("schedules", "2-4 REAL processes under the controlled scheduler (every cache action gated; random interleaving; in half of the runs one or two "
                    "processes are SIGKILLed at a random action, inside pickle.dump after 0 / half / all bytes) on every class of initial state; the observed schedule is "
@@ -1495,6 +1506,58 @@ def run_env_histories(ck, c, sv, only, oin, par):
         sv.expect(changed > 0, "non-vacuity", "no override of the histories changed any answer: the histories test nothing", changed)
 
 
+def run_rewritten_cfg(ck, c, sr, only, oin, par):
+    """C18f (wave 6): the config-cache fingerprint stamped int(st_mtime) - a same-size rewrite inside the same second was trusted."""
+    variants = [  # (name, same size?, delta of the modification time in ns)
+        ("same_size_same_second_plus_0.5s", True, 500_000_000), ("same_size_same_second_plus_1us", True, 1_000),
+        ("same_size_same_second_plus_1ns_x1000", True, 1_000_000), ("same_size_next_second", True, 1_400_000_000),
+        ("same_size_earlier_in_same_second", True, -50_000_000), ("other_size_same_mtime", False, 0), ("other_size_same_second", False, 300_000_000),
+        ("same_size_two_seconds_back", True, -2_000_000_000),
+    ]
+    r = random.Random(f"{ck.seed}/rewritten")
+    cases = []
+    for name, same, delta in variants:
+        for _ in range(ck.budget(1, 4)):
+            a = r.randrange(1000, 9999)
+            b = a
+            while b == a:
+                b = r.randrange(1000, 9999)
+            cases.append({"variant": name, "same_size": same, "delta_ns": delta, "first": a, "second": b if same else b * 100 + 7})
+    if only is not None:
+        cases = [oin] if "variant" in oin else []
+
+    def do_case(cs):
+        root = new_folder(c, "rw")
+        cache = root / "cache"
+        cache.mkdir()
+        f = root / "user_cfg.yaml"
+        base_ns = (int(time.time()) - 10) * 1_000_000_000 + 100_000_000      # .1 s into a second safely in the past
+        f.write_text(f"value: {cs['first']}\nname: reference\n")
+        os.utime(f, ns=(base_ns, base_ns))
+        first = run_env_child(cache, ["cfgfile", str(f)], None)
+        f.write_text(f"value: {cs['second']}\nname: reference\n")
+        os.utime(f, ns=(base_ns + cs["delta_ns"], base_ns + cs["delta_ns"]))
+        cached = run_env_child(cache, ["cfgfile", str(f)], None)
+        ref = run_env_child(root / "ref", ["cfgfile", str(f)], {"SPSDK_CACHE_DISABLED": "1"})
+        st = os.stat(f)
+        shutil.rmtree(root, ignore_errors=True)
+        return cs, first, cached, ref, st.st_mtime_ns - base_ns
+
+    with concurrent.futures.ThreadPoolExecutor(min(par, 6)) as ex:
+        results = list(ex.map(do_case, cases))
+    for cs, first, cached, ref, seen_delta in results:
+        sr.note((cs["variant"], cs["first"], cs["second"]), cls=cs["variant"])
+        if seen_delta != cs["delta_ns"]:
+            continue        # the scratch file system does not keep nanosecond time stamps: the case says nothing
+        sr.expect(first["rc"] == 0 and first["answers"] == {"content": {"value": cs["first"], "name": "reference"}}, cs,
+                  "the first start (cold cache) does not return the content of the configuration file", first)
+        sr.expect(ref["rc"] == 0 and ref["answers"] == {"content": {"value": cs["second"], "name": "reference"}}, cs,
+                  "the cache-disabled reference start does not return the rewritten content", ref)
+        sr.expect(cached["rc"] == 0 and cached["answers"] == ref["answers"], cs,
+                  "a configuration file was rewritten between two starts; the start with the (now stale) config cache answers load_db_cfg_file differently from a start "
+                  "with the cache disabled: the stale cache passed the fingerprint check", {"with_cache": cached, "cache_disabled": ref["answers"]}, "equal answers")
+
+
 def check_environment_stable(c):
     """the quick-info fingerprint must still be the one of the reference cache; otherwise the data files changed under us"""
     from vcore import Infra
@@ -1510,7 +1573,7 @@ def replay(ck, data):
     """re-run exactly the recorded case (crash state / variant / scenario / observed schedule incl. kill points)."""
     case = (data.get("cases") or [{}])[0]
     only = {"stream": data.get("stream"), "input": case.get("input")}
-    if data.get("stream") not in ("crash_starts", "stale_starts", "concurrent_starts", "schedules", "model_exploration", "unusable_folder", "disabled_concurrent", "environment_histories") or not isinstance(only["input"], dict):
+    if data.get("stream") not in ("crash_starts", "stale_starts", "concurrent_starts", "schedules", "model_exploration", "unusable_folder", "disabled_concurrent", "environment_histories", "rewritten_cfg_files") or not isinstance(only["input"], dict):
         return run(ck)
     ROOT.mkdir(exist_ok=True)
     work = ROOT / f"replay-{os.getpid()}-{ck.seed}"
